@@ -388,6 +388,9 @@ public:
          object.reDim(num());
       }
 
+      scaleExp.reSize(num());
+      scaleExp[num() - 1] = 0;
+
       left[num() - 1] = *lhsValue;
       right[num() - 1] = *rhsValue;
 
